@@ -41,6 +41,48 @@ def _value_of(payload_idx):
     return None if payload_idx < 0 else PAYLOAD_VALUES[payload_idx]
 
 
+class _RawText:
+    """custom SerDes for which EVERY text, the empty string included, is a valid encoding (raw text / pass-through)"""
+
+    def serialize(self, value, ctx):
+        return value[1] if isinstance(value, tuple) else value
+
+    def deserialize(self, data, ctx):
+        return ("decoded", data)
+
+
+@h.lemma(timeout=120, funcs=STEP_FUNCS + ops.CHILD_FUNCS + ops.WFC_FUNCS, reach=("end", "empty_text"),
+         bounds="SUCCEEDED step / child context / wait_for_condition record whose recorded result is ANY text (str, len<=2, the empty string included) under a custom "
+                "raw-text serializer: the recorded result is what the configured serializer decodes from that text, nothing runs, nothing is sent")
+def terminal_custom_serdes(kind: int, r: str):
+    """
+    pre: 0 <= kind < 3 and len(r) <= 2
+    post: True
+    """
+    from harness.common import step_record
+    from aws_durable_execution_sdk_python.lambda_service import ContextDetails, OperationSubType
+    from aws_durable_execution_sdk_python.waits import WaitForConditionDecision as D
+    sd = _RawText()
+    if kind == 0:
+        rec = step_record(ST.SUCCEEDED, 1, r, None, None, True)
+        tr = run_step(rec, False, False, False, 3, serdes=sd)
+    elif kind == 1:
+        rec = Operation(OID, OperationType.CONTEXT, ST.SUCCEEDED, parent_id=PID, name="nm", sub_type=OperationSubType.RUN_IN_CHILD_CONTEXT,
+                        context_details=ContextDetails(replay_children=False, result=r))
+        tr = ops.run_child(rec, lambda: "body-ran", config=ChildConfig(serdes=sd))
+    else:
+        rec = step_record(ST.SUCCEEDED, 2, r, None, None, True)
+        rec = Operation(rec.operation_id, rec.operation_type, rec.status, parent_id=rec.parent_id, name=rec.name,
+                        sub_type=OperationSubType.WAIT_FOR_CONDITION, step_details=rec.step_details)
+        tr = ops.run_wfc(rec, "INIT", lambda s_: "polled", lambda s_, n: D.stop_polling(), serdes=sd)
+    if len(r) == 0:
+        h.reach("empty_text")
+    h.check(not tr.calls and not tr.state.log, "a completed operation ran its function or sent an update")
+    h.check(tr.kind == "ret" and tr.value == ("decoded", r), "the recorded result must be decoded by the configured serializer, whatever its text")
+    h.end()
+
+
+
 # ---------------------------------------------------------------- L1: terminal records short-circuit
 @h.lemma(timeout=90, funcs=STEP_FUNCS, bounds="step record SUCCEEDED/FAILED, attempt any int>=0, payload None or 4 encodings, error present/absent, both semantics")
 def step_terminal(failed: bool, attempt: int, payload_idx: int, has_err: bool, has_details: bool, amo: bool, fails: bool, retry: bool):
